@@ -1,6 +1,11 @@
 package arrow_record
 
 import (
+	"go.opentelemetry.io/collector/pdata/pcommon"
+	"go.opentelemetry.io/collector/pdata/plog"
+	"go.opentelemetry.io/collector/pdata/pmetric"
+	"go.opentelemetry.io/collector/pdata/ptrace"
+
 	"github.com/apache/arrow-go/v18/arrow/array"
 	"github.com/apache/arrow-go/v18/arrow/ipc"
 
@@ -8,6 +13,52 @@ import (
 	carrow "github.com/open-telemetry/otel-arrow/pkg/arrow"
 	rt "github.com/open-telemetry/otel-arrow/zzverifrt"
 )
+
+// "odd" inputs for the history harness: the resource attribute has another TYPE than in the rich inputs (so
+// the RESOURCE_ATTRS schema differs between calls and between signals), and every record-level attribute is
+// one the encoder skips (unset value), so the record-level attribute table receives maps but no rows.
+func verifOddTraces(seed int) ptrace.Traces {
+	td := ptrace.NewTraces()
+	rs := td.ResourceSpans().AppendEmpty()
+	rs.Resource().Attributes().PutInt("service", 7)
+	ss := rs.ScopeSpans().AppendEmpty()
+	for i := 0; i < 2; i++ {
+		sp := ss.Spans().AppendEmpty()
+		sp.SetSpanID(pcommon.SpanID{byte(seed), byte(i + 1), 2})
+		sp.SetTraceID(pcommon.TraceID{byte(i + 1)})
+		sp.SetName("span")
+		sp.Attributes().PutEmpty("unset")
+	}
+	return td
+}
+
+func verifOddLogs(seed int) plog.Logs {
+	ld := plog.NewLogs()
+	rl := ld.ResourceLogs().AppendEmpty()
+	rl.Resource().Attributes().PutInt("service", 7)
+	sl := rl.ScopeLogs().AppendEmpty()
+	for i := 0; i < 2; i++ {
+		lr := sl.LogRecords().AppendEmpty()
+		lr.SetTimestamp(pcommon.Timestamp(1000 + seed + i))
+		lr.SetSpanID(pcommon.SpanID{byte(seed + 1), byte(i + 1), 2})
+		lr.Attributes().PutEmpty("unset")
+	}
+	return ld
+}
+
+func verifOddMetrics(seed int) pmetric.Metrics {
+	md := pmetric.NewMetrics()
+	rm := md.ResourceMetrics().AppendEmpty()
+	rm.Resource().Attributes().PutInt("service", 7)
+	sm := rm.ScopeMetrics().AppendEmpty()
+	sm.Scope().Attributes().PutEmpty("unset")
+	m := sm.Metrics().AppendEmpty()
+	m.SetName("s")
+	dp := m.SetEmptySum().DataPoints().AppendEmpty()
+	dp.SetDoubleValue(1.5)
+	dp.SetTimestamp(pcommon.Timestamp(1000 + seed))
+	return md
+}
 
 // VerifHarness_C12_history: a history of CALLS Produce calls on ONE producer, each call a decision among
 // {traces, logs, metrics} x {poor, rich} telemetry (so signals interleave, optional columns and related
@@ -31,20 +82,39 @@ func VerifHarness_C12_history() {
 	bound := map[string]*binding{}                       // schema id -> what it denotes
 	current := map[colarspb.ArrowPayloadType]string{}    // payload type -> schema id in use
 	retired := map[string]bool{}                         // schema ids whose type has moved on
+	type emitted struct {
+		pl   *colarspb.ArrowPayload
+		copy []byte
+	}
+	var all []emitted // every payload handed out, with a private copy of its bytes at emission time
 	for call := 0; call < rt.Param("CALLS"); call++ {
 		signal := rt.Int("signal")
 		rt.Assume(signal >= 0)
 		rt.Assume(signal <= 2)
-		rich := rt.Bool("rich")
+		level := rt.Int("level") // 0 poor, 1 rich, 2 odd
+		rt.Assume(level >= 0)
+		rt.Assume(level <= 2)
 		var bar *colarspb.BatchArrowRecords
 		var err error
 		switch signal {
 		case 0:
-			bar, err = p.BatchArrowRecordsFromTraces(verifFixedTraces(call, rich))
+			if level == 2 {
+				bar, err = p.BatchArrowRecordsFromTraces(verifOddTraces(call))
+			} else {
+				bar, err = p.BatchArrowRecordsFromTraces(verifFixedTraces(call, level == 1))
+			}
 		case 1:
-			bar, err = p.BatchArrowRecordsFromLogs(verifFixedLogs(call, rich))
+			if level == 2 {
+				bar, err = p.BatchArrowRecordsFromLogs(verifOddLogs(call))
+			} else {
+				bar, err = p.BatchArrowRecordsFromLogs(verifFixedLogs(call, level == 1))
+			}
 		default:
-			bar, err = p.BatchArrowRecordsFromMetrics(verifFixedMetrics(call, rich))
+			if level == 2 {
+				bar, err = p.BatchArrowRecordsFromMetrics(verifOddMetrics(call))
+			} else {
+				bar, err = p.BatchArrowRecordsFromMetrics(verifFixedMetrics(call, level == 1))
+			}
 		}
 		rt.Assert(err == nil, "C12.history.produce_ok")
 		if err != nil {
@@ -56,6 +126,7 @@ func VerifHarness_C12_history() {
 		for k, pl := range bar.ArrowPayloads {
 			rt.Assert(!seenType[pl.Type], "C12.history.payload_types_distinct")
 			seenType[pl.Type] = true
+			all = append(all, emitted{pl, append([]byte(nil), pl.Record...)})
 			tok, ok := ipc.VerifTokenOf(pl.Record)
 			rt.Assert(ok, "C12.history.payload_is_one_ipc_message")
 			if !ok {
@@ -81,6 +152,10 @@ func VerifHarness_C12_history() {
 			b.seq = tok.Seq
 		}
 	}
+	// batches already handed out (queued, retried, recorded) stay what they were when later batches are produced
+	for _, e := range all {
+		rt.Assert(verifBytesEq(e.pl.Record, e.copy), "C12.history.emitted_payloads_stay_intact")
+	}
 	rt.Assert(p.Close() == nil, "C15.release.close_ok")
 	rt.Assert(array.VerifLive == liveBefore, "C15.release.all_records_arrays_builders_released")
 	rt.Assert(ipc.VerifOpenWriters == writersBefore, "C15.release.all_ipc_writers_closed")
@@ -99,7 +174,7 @@ func VerifHarness_C16_independent() {
 	}
 	opt := rt.Int("optionsOfB")
 	rt.Assume(opt >= 0)
-	rt.Assume(opt <= 2)
+	rt.Assume(opt <= 3)
 	pb, cb := verifProducerOpt(opt), verifConsumer()
 	// first touch of B's code paths happened through A already (lazy package initialisation is done)
 	rt.WatchBegin("pair A", pa)
